@@ -166,7 +166,13 @@ def evaluate(ctx, world, record=True):
         return res
     ctx.count("resolution_steps", res["steps"])
     seen = set()
-    for bucket, msg in RW.plan_problems(world, pk, res["ops"]):
+    problems = RW.plan_problems(world, pk, res["ops"])
+    selfx = bool(problems) and RW.has_self_excluding(pk)
+    for bucket, msg in problems:
+        if selfx and not bucket.endswith(":own-slot"):
+            # some package of the world requires another version of its own slot (it excludes itself); the
+            # resolver's handling of that is one root cause with many symptoms - keep those apart
+            bucket += ":world-has-self-excluding-pkg"
         if bucket in seen:
             continue
         seen.add(bucket)
